@@ -16,6 +16,8 @@ def custom_split(kind):
             off += nb
         if kind == 'C2':
             pts = pts[:1]
+        elif kind == 'C3':
+            pts = pts[-1:]
         return RVec(pts)
     return PyFn(fn, kind)
 
